@@ -95,10 +95,6 @@ func CheckRun(rep *vh.Report, run *Run, sc any) {
 			} else if p.Cls != "other" {
 				viol("status-error-after:"+p.Cls, "the submission ended with a status error after a response of class "+p.Cls, c)
 			}
-		case "ctx":
-			if !c.ErrIsCtx {
-				viol("ctx-error-wrapped", "the error returned after the context ended is not the context's error itself", c)
-			}
 		}
 		// the context: nothing after its end, and a prompt return with its error
 		if c.Spec.CtxKind == "none" {
